@@ -262,9 +262,10 @@ type case = {
   mutable reads : rd list; mutable fault : wfault;
   mutable qs : (qprog * n option) list; mutable ps : (pprog * n option) list;
   mutable xs : xscript list; mutable is : (iprog * n option) list;
+  mutable pre : byte list; mutable plain : byte list;
 }
 let new_case id = { id; lim = 16777215; tls = false; auth = None; dinit = false; reads = []; fault = WNone;
-                    qs = []; ps = []; xs = []; is = [] }
+                    qs = []; ps = []; xs = []; is = []; pre = []; plain = [] }
 
 let run_case oc (c : case) =
   let sc = { sc_q = List.rev c.qs; sc_p = List.rev c.ps; sc_x = List.rev c.xs;
@@ -278,6 +279,26 @@ let run_case oc (c : case) =
   List.iter (fun e -> if visible e then print_event oc c.id e) (List.rev st1.s_trace);
   print_result oc c.id r
 
+(* tls mode: the model sees the plaintext SSL request on the socket and the client's plaintext
+   (second handshake response + commands) as what the engine yields after the switch *)
+let run_case_tls oc (c : case) =
+  let sc = { sc_q = List.rev c.qs; sc_p = List.rev c.ps; sc_x = List.rev c.xs; sc_i = List.rev c.is } in
+  let cfg = { cfg_tls = c.tls; cfg_auth = c.auth } in
+  let st0 = model_init_st (n_of_int c.lim) [RdData c.pre] WNone in
+  let plain = if c.plain = [] then [] else [RdData c.plain] in
+  let (r, st1) = model_run_on_tls fpext fptrunc model_errtab cfg sc plain st0 in
+  let evs = List.rev st1.s_trace in
+  let seen_read = ref false in
+  let plainout = Buffer.create 64 and tlsout = Buffer.create 256 in
+  List.iter (fun e -> match e with
+    | ERead _ | EReadErr _ -> seen_read := true
+    | EWrite bs -> Buffer.add_string (if !seen_read then tlsout else plainout) (hex_of_bytes bs)
+    | ECall _ | EApi _ -> print_event oc c.id e
+    | _ -> ()) evs;
+  Printf.fprintf oc "%s|tlsout|%s\n" c.id (Buffer.contents tlsout);
+  Printf.fprintf oc "%s|plainout|%s\n" c.id (Buffer.contents plainout);
+  print_result oc c.id r
+
 let parse_fault s =
   match split_colon s with
   | ["none"] -> WNone
@@ -285,7 +306,7 @@ let parse_fault s =
   | ["from"; op; k] -> WFrom (nat_of_int (int_of_string op), n_of_dec k)
   | _ -> fail_parse ("bad fault " ^ s)
 
-let conn_mode cases out =
+let conn_mode ?(tlsmode=false) cases out =
   let ic = open_in cases in
   let oc = open_out out in
   let cur = ref None in
@@ -298,7 +319,7 @@ let conn_mode cases out =
       let t = { arr; pos = 0 } in
       match pop t with
       | "case" -> cur := Some (new_case (pop t))
-      | "end" -> (match !cur with Some c -> run_case oc c; cur := None | None -> fail_parse "end without case")
+      | "end" -> (match !cur with Some c -> (if tlsmode then run_case_tls oc c else run_case oc c); cur := None | None -> fail_parse "end without case")
       | kw ->
         let c = match !cur with Some c -> c | None -> fail_parse ("directive outside case at line " ^ string_of_int !lineno) in
         (match kw with
@@ -309,12 +330,16 @@ let conn_mode cases out =
              | ["lim"; v] -> c.lim <- int_of_string v
              | ["tls"; v] -> c.tls <- (v = "1")
              | ["dinit"; v] -> c.dinit <- (v = "1")
+             | ["clientcert"; _] -> ()
              | ["auth"; "ok"] -> c.auth <- None
              | ["auth"; v] -> (match split_colon v with ["rej"; tag] -> c.auth <- Some (n_of_dec tag) | _ -> fail_parse ("bad auth " ^ v))
              | _ -> fail_parse ("bad cfg " ^ kv)
            done
          | "reads" -> let l = ref [] in while peek t <> None do l := parse_rtok (pop t) :: !l done; c.reads <- List.rev !l
          | "fault" -> c.fault <- parse_fault (pop t)
+         | "pre" -> c.pre <- bytes_of_hexspec (pop t)
+         | "plain" -> c.plain <- bytes_of_hexspec (pop t)
+         | "split" | "prechunks" | "chunks" -> ()
          | "q" -> let p = parse_qprog t in let r = parse_ret t in c.qs <- (p, r) :: c.qs
          | "p" ->
            let p = (match pop t with
@@ -371,6 +396,7 @@ let () =
   match Array.to_list Sys.argv with
   | [_; "conn"; cases; aux; out] -> load_aux aux; conn_mode cases out;
       if !missing_aux > 0 then Printf.eprintf "driver: %d float lookups missing from aux\n" !missing_aux
+  | [_; "tls"; cases; aux; out] -> load_aux aux; conn_mode ~tlsmode:true cases out
   | [_; "val"; cases; aux; out] -> load_aux aux; val_mode cases out;
       if !missing_aux > 0 then Printf.eprintf "driver: %d float lookups missing from aux\n" !missing_aux
   | _ -> prerr_endline "usage: driver (conn|val) <cases> <aux> <out>"; exit 2
